@@ -52,7 +52,10 @@ using namespace photon::fs;
 #define FAULTS 0         // 1: source / media / hole-query / allocator / fstat faults are symbolic choices
 #endif
 #ifndef OFFMAX
-#define OFFMAX (SRCMAX + 1)   // read offsets 0..OFFMAX (beyond end of file included)
+#define OFFMAX (SRCMAX + 1)   // read offsets OFFMIN..OFFMAX (beyond end of file included)
+#endif
+#ifndef OFFMIN
+#define OFFMIN 0
 #endif
 #define MAXV (NIOV > 2 ? NIOV : 2)          // segments of any vector handed to source / media
 
@@ -410,7 +413,7 @@ template<int RD> static inline __attribute__((always_inline)) void one_read()
 {
     static iovec V[NIOV], V0[NIOV];
     uint8_t* seg[NIOV]; uint64_t slen[NIOV]; uint8_t before[NIOV][SEGMAX];
-    uint8_t o8 = nondet_u8(); ASSUME(o8 <= OFFMAX);
+    uint8_t o8 = nondet_u8(); ASSUME(o8 >= OFFMIN && o8 <= OFFMAX);
     const uint64_t off = o8;
     uint64_t len = 0;
     for (int k = 0; k < NIOV; k++) {
@@ -460,12 +463,19 @@ template<int RD> static inline __attribute__((always_inline)) void one_read()
 
     // vacuity witnesses on the interesting paths
     if (RD == 0) {
+#if !defined(KNOWN) || KNOWN
         if (n_fault == 0 && n_src_reads == 0 && want > 0 && n_media_reads == 1) WITNESS("fully cached read served from media");
-        if (n_fault == 0 && n_src_reads == 1 && n_media_writes == 1 && n_media_reads == 0 && want > 0) WITNESS("absent range: refilled and served from the refill buffer");
+#if OFFMIN + PAGE < SRCMAX
         if (n_fault == 0 && n_src_reads == 1 && n_media_reads == 1 && want > 1) WITNESS("partly cached range: refill plus media read of the remainder");
+        if (n_malloc == 1) WITNESS("refill covers the tail of the request (IOVector::slice)");
+#endif
+#endif
+#if !defined(KNOWN) || !KNOWN
+        if (ST->get_actual_size() == (off_t)SIZE && !pre[0] && n_fault == 0 && want > 0 && SIZE > PAGE) WITNESS("size fetched from the source, then the range refilled");
+#endif
+        if (n_fault == 0 && n_src_reads == 1 && n_media_writes == 1 && n_media_reads == 0 && want > 0) WITNESS("absent range: refilled and served from the refill buffer");
         if (n_fault == 0 && want < len && want > 0 && SIZE % PAGE != 0) WITNESS("read clipped at an unaligned end of file");
         if (off >= SIZE && len > 0) WITNESS("read at or beyond end of file");
-        if (n_malloc == 1) WITNESS("refill covers the tail of the request (IOVector::slice)");
 #if FAULTS
         if (r == -1) WITNESS("faulted read fails");
         if (n_fault > 0 && r == (ssize_t)want && want > 0) WITNESS("fault absorbed: full correct read");
@@ -486,6 +496,30 @@ void harness_read()
 #if NREADS >= 2
     one_read<1>();
 #endif
+}
+
+// hole-query lemma for the store harness's own query (bitmap or RangeModule variant): a hit means the request is covered, a miss
+// returns a refill-unit aligned range that covers every missing byte of the request
+void harness_holequery()
+{
+    world_init();
+    uint8_t o8 = nondet_u8(), c8 = nondet_u8();
+    ASSUME((uint64_t)o8 + c8 <= SIZE);
+    n_fault = 0;
+    std::pair<off_t, size_t> q = ST->queryRefillRange(o8, c8);
+    if (n_fault == 0) {
+        bool hit = q.first == 0 && q.second == 0, ok = true;
+        for (uint64_t x = 0; x < SRCMAX; x++) if (x >= o8 && x < (uint64_t)o8 + c8) {
+            bool present = PRESENT[x / PAGE];
+            if (hit && !present) ok = false;
+            if (!hit && !present && !((uint64_t)q.first <= x && x < (uint64_t)q.first + q.second)) ok = false;
+        }
+        CHECK(ok, "hole query: a hit means every byte of the request is present, a miss returns a range covering every missing byte");
+        if (!hit) CHECK(q.first >= 0 && q.first % RUNIT == 0 && q.second % RUNIT == 0 && q.second > 0, "hole query: a refill range is non-empty and aligned to the refill unit");
+        if (hit && c8 > 4) WITNESS("hole query: multi-page hit");
+        if (!hit && q.second > 4 && (uint64_t)q.first + q.second > SIZE) WITNESS("hole query: refill range reaches beyond the end of file");
+        if (!hit && (uint64_t)q.first > o8) WITNESS("hole query: request starts in a cached page");
+    } else CHECK(q.first < 0, "a failed hole query reports a negative offset");
 }
 
 // try_refill_range through the public prefetch(): afterwards the whole (page-aligned, clipped) range is cached
